@@ -1,6 +1,7 @@
 import Momo.Proof.MMapHist
 import Momo.Proof.MMapHT
 import Momo.Proof.TrEqMisc2Bucket
+import Momo.Proof.TrEqWave2MMap
 /-!
 # C08 — Hash multimap equals the abstract key → value-list map
 
@@ -464,5 +465,37 @@ theorem C08_value_array_ops_translated (mf : Nat) (hmf : mf < Extracted.abMaxFas
 
 example : Tr.ab_pvMakeState 15 15 = 255 ∧ Tr.ab_pvMakeState 3 2 = 50 ∧ Tr.ab_pvGetMemPoolIndex 50 = 3 ∧ Tr.ab_pvGetFastCount 50 = 2 ∧
     Tr.ab_RemoveBack_decState 50 = 49 ∧ Tr.ab_AddBack_incState 49 = 50 ∧ Tr.ab_RemoveBack_shrinkCond 4 16 = true := by decide
+
+/-! #### second wave (tools/trspecs/Wave2.py → `Momo/Translated/Wave2.lean`; equivalences: `Proof/TrEqWave2MMap.lean`) -/
+
+/-- **The branch tests of the value array, from the header text.** `AddBackCrt` of the model with every test
+(`count == memPoolIndex`, `newCount <= maxFastCount`) and every count (`newCount = 1`, `newCount = count + 1`) taken from the
+translated details/ArrayBucket.h on top of the translated state-byte arithmetic of `C08_value_array_ops_translated`; the first
+test of `RemoveBack` (`count == 1`); and the translated `memPoolIndex > 0` tells the representations apart: false on the state
+byte written for a heap bucket (`uint8_t{0}`), true on the state byte of the first value. -/
+theorem C08_value_array_tests_translated (mf : Nat) (hmf : mf < Extracted.abMaxFastLimit) (a : VArr) (v : Nat) (shrinkFails : Bool) :
+    VArr.addBack mf a v =
+      (match a.rep with
+      | .none => ⟨.fast (Tr.ab_pvMakeState (Tr.ab_pvGetFastMemPoolIndex Tr.ab_AddBack_firstCount) Tr.ab_AddBack_firstCount), [v]⟩
+      | .fast s =>
+        if Tr.ab_AddBack_isFull (Tr.ab_pvGetFastCount s) (Tr.ab_pvGetMemPoolIndex s) = true then
+          if Tr.ab_AddBack_staysFast mf (Tr.ab_AddBack_newCount (Tr.ab_pvGetFastCount s)) = true then
+            ⟨.fast (Tr.ab_pvMakeState (Tr.ab_pvGetFastMemPoolIndex (Tr.ab_AddBack_newCount (Tr.ab_pvGetFastCount s)))
+                (Tr.ab_AddBack_newCount (Tr.ab_pvGetFastCount s))),
+              a.items.take (Tr.ab_pvGetFastCount s) ++ [v]⟩
+          else ⟨.heap (Tr.ab_AddBack_heapCap mf), a.items.take (Tr.ab_pvGetFastCount s) ++ [v]⟩
+        else ⟨.fast (Tr.ab_AddBack_incState s), a.items.take (Tr.ab_pvGetFastCount s) ++ [v]⟩
+      | .heap cap =>
+        if a.items.length < cap then ⟨.heap cap, a.items ++ [v]⟩
+        else ⟨.heap (growCap cap (a.items.length + 1)), a.items ++ [v]⟩) ∧
+    VArr.removeBack a shrinkFails =
+      (if Tr.ab_RemoveBack_last a.count = true then VArr.empty else VArr.removeBack a shrinkFails) ∧
+    Tr.ab_AddBack_isFast (Tr.ab_pvGetMemPoolIndex Tr.ab_AddBack_heapState) = false ∧
+    Tr.ab_RemoveBack_isFast (Tr.ab_pvGetMemPoolIndex Tr.ab_AddBack_heapState) = false ∧
+    Tr.ab_AddBack_isFast (Tr.ab_pvGetMemPoolIndex
+      (Tr.ab_pvMakeState (Tr.ab_pvGetFastMemPoolIndex Tr.ab_AddBack_firstCount) Tr.ab_AddBack_firstCount)) = true := by
+  simp only [Extracted.abMaxFastLimit] at hmf
+  exact ⟨(TrEq.addBack_tests_translated mf (by omega) a v shrinkFails).1, (TrEq.addBack_tests_translated mf (by omega) a v shrinkFails).2,
+    TrEq.tr_ab_rep_tests⟩
 
 end Momo.MMap
